@@ -65,32 +65,59 @@ int ifdef_ignore(AsmContext *asm_context)
   }
 }
 
+// Assembles the lines of a branch that is taken.  Returns 0 if the branch
+// was closed by .endif, 2 if it was ended by .else and -1 for an error
+// (a missing .endif is one).
+static int assemble_branch(AsmContext *asm_context)
+{
+  int n = asm_context->assemble();
+
+  if (n == 5) { return 0; }
+  if (n == 2) { return 2; }
+
+  if (n == 0)
+  {
+    print_error(asm_context, "Missing endif");
+  }
+    else
+  if (n == 3)
+  {
+    print_error(asm_context, "Unexpected .endr inside .if block");
+  }
+
+  return -1;
+}
+
 int parse_ifdef_ignore(AsmContext *asm_context, int ignore_section)
 {
+  int n;
+
   if (ignore_section == 1)
   {
-    int n = ifdef_ignore(asm_context);
+    n = ifdef_ignore(asm_context);
 
-    if (n == -1) { return -1; }
+    if (n != 2) { return n; }
 
-    if (n == 2)
-    {
-      if (asm_context->assemble() == -1) { return -1; }
-    }
+    // After .else the second branch is assembled up to its .endif.
+    n = assemble_branch(asm_context);
   }
     else
   {
-    int n = asm_context->assemble();
+    n = assemble_branch(asm_context);
 
-    if (n == -1) { return -1; }
+    if (n != 2) { return n; }
 
-    if (n == 2)
-    {
-      if (ifdef_ignore(asm_context) == -1) { return -1; }
-    }
+    // After .else the second branch is skipped up to its .endif.
+    n = ifdef_ignore(asm_context);
   }
 
-  return 0;
+  if (n == 2)
+  {
+    print_error(asm_context, "Unexpected .else");
+    return -1;
+  }
+
+  return n;
 }
 
 int parse_ifdef(AsmContext *asm_context, int ifndef)
